@@ -510,6 +510,34 @@ func c04Vctx(fd *ast.FuncDecl) c04VctxShape {
 		namesVar = exprText(as.Lhs[0])
 		return false
 	})
+	// … or the library's spelling of that loop: X := maps.Keys(keys) (golang.org/x/exp/maps: a slice in map order),
+	// X := slices.Collect(maps.Keys(keys)), X := slices.Sorted(maps.Keys(keys)) (sorted as well)
+	if namesVar == "" {
+		ast.Inspect(fd, func(n ast.Node) bool {
+			as, ok := n.(*ast.AssignStmt)
+			if !ok || len(as.Lhs) != 1 || len(as.Rhs) != 1 || namesVar != "" {
+				return true
+			}
+			ce, ok := as.Rhs[0].(*ast.CallExpr)
+			if !ok || len(ce.Args) != 1 {
+				return true
+			}
+			keysOf := func(e ast.Expr) bool {
+				c, ok := e.(*ast.CallExpr)
+				return ok && exprText(c.Fun) == "maps.Keys" && len(c.Args) == 1 && c04Canon(c.Args[0], sub) == "$keys"
+			}
+			switch f := exprText(ce.Fun); {
+			case keysOf(ce):
+				namesVar = exprText(as.Lhs[0])
+			case (f == "slices.Collect" || f == "slices.Sorted") && keysOf(ce.Args[0]):
+				namesVar = exprText(as.Lhs[0])
+				if f == "slices.Sorted" {
+					r.sorted = true
+				}
+			}
+			return true
+		})
+	}
 	// sorted?
 	ast.Inspect(fd, func(n ast.Node) bool {
 		ce, ok := n.(*ast.CallExpr)
